@@ -112,6 +112,7 @@ func rulesC18(p *Prog, r *Report) {
 	}
 
 	rateFamilyRule(p, r, "R18.5")
+	accrualClockRule(p, r, "R18.6")
 
 	// tracker stores ------------------------------------------------------------------
 	type trackerStore struct {
@@ -424,4 +425,81 @@ func (p *Prog) isBlockTimeCall(v ssa.Value) bool {
 		}
 	}
 	return false
+}
+
+// accrualClockRule (R18.6): in the lend keeper a position whose accrual index is refreshed
+// (X.GlobalIndex = ...) has its accrual clock refreshed with it (X.LastInteractionTime =
+// ctx.BlockTime()) on every success path: otherwise the interval just charged is charged
+// again by the next interaction (accrual over zero time is not zero, split accrual exceeds a
+// single one). The pair is unanimous at the sites of today's tree; instances are discovered.
+func accrualClockRule(p *Prog, r *Report, rule string) {
+	r.Rule(rule, "lend: a refreshed accrual index (GlobalIndex) comes with a refreshed accrual clock (LastInteractionTime = block time)", 6)
+	for _, fn := range p.Funcs {
+		if moduleOf(fn) != "lend" || p.isAuxFn(fn) || len(fn.Blocks) == 0 || !strings.HasSuffix(fnPkgPath(fn), "/keeper") {
+			continue
+		}
+		type fs struct {
+			st    *ssa.Store
+			base  ssa.Value
+			field string
+		}
+		var idx, clk []fs
+		for _, b := range fn.Blocks {
+			for _, in := range b.Instrs {
+				st, ok := in.(*ssa.Store)
+				if !ok {
+					continue
+				}
+				base, path := addrBase(st.Addr)
+				tn := namedTypeName(derefAll(base.Type()))
+				if (tn != "LendAsset" && tn != "BorrowAsset") || len(path) != 1 {
+					continue
+				}
+				switch path[0] {
+				case "GlobalIndex":
+					idx = append(idx, fs{st, base, path[0]})
+				case "LastInteractionTime":
+					if p.isBlockTimeCall(st.Val) {
+						clk = append(clk, fs{st, base, path[0]})
+					}
+				}
+			}
+		}
+		n := 0
+		for _, s := range idx {
+			n++
+			r.Instance(rule)
+			r.FuncsSeen[fname(fn)] = true
+			construct := fmt.Sprintf("%s index refresh #%d", fname(fn), n)
+			blocked := map[*ssa.BasicBlock]bool{}
+			for _, c := range clk {
+				if c.base == s.base {
+					blocked[c.st.Block()] = true
+				}
+			}
+			ok := false
+			if blocked[s.st.Block()] {
+				ok = true
+			}
+			for b := range blocked {
+				if b.Dominates(s.st.Block()) {
+					ok = true
+				}
+			}
+			if !ok && len(blocked) > 0 {
+				ok = true
+				seen, _ := reach(fn, s.st.Block(), nil, blocked)
+				for _, t := range p.successTargets(nil, fn, 0) {
+					if seen[t] {
+						ok = false
+					}
+				}
+			}
+			if ok {
+				r.OK(rule, construct, "the position's LastInteractionTime is set to the block time on the same paths", p.instrPos(s.st))
+			} else {
+				r.Fail(rule, construct, "the position's accrual index is refreshed and the function can succeed without refreshing its accrual clock (LastInteractionTime = block time): the interval just charged is charged again by the next interaction", p.instrPos(s.st), nil)
+			}
+		}
+	}
 }
